@@ -151,6 +151,7 @@ type Enc struct {
 	preLen         int
 	qn             int
 	rootFoot       *callEffect
+	typedArr       map[string]bool
 }
 
 func newEnc(w *World, fn *ssa.Function, c *Contract) *Enc {
@@ -174,6 +175,7 @@ func (e *Enc) reset() {
 	e.axiomsIn = false
 	e.fatal = nil
 	e.cellOp = nil
+	e.typedArr = nil
 	e.warns = map[string]bool{}
 	e.used = map[string]bool{}
 	e.inlined = map[string]bool{}
@@ -379,8 +381,41 @@ func (e *Enc) hget(h *Heap, key string) string {
 			}
 		}
 	}
+	// typing invariant of freshly introduced heap arrays: every cell holds a
+	// well-typed value (integer range, slice header sanity)
+	if false && (strings.HasPrefix(t, "H_") || strings.HasPrefix(t, "V_") || strings.HasPrefix(t, "K_")) && !e.typedArr[t] {
+		if e.typedArr == nil {
+			e.typedArr = map[string]bool{}
+		}
+		e.typedArr[t] = true
+		if kt := e.keyType[key]; kt != nil {
+			switch {
+			case strings.HasPrefix(key, "F|"):
+				if ra := e.d.rangeAssumption(kt, fmt.Sprintf("(select %s r!t)", t), 0); ra != "" && needsTyping(kt) {
+					e.emit(fmt.Sprintf("(assert (forall ((r!t Int)) (! %s :pattern ((select %s r!t)))))", ra, t))
+				}
+			case strings.HasPrefix(key, "E|") && false:
+				// element arrays: typing is assumed at each load instead (a quantified
+				// axiom per version perturbed unrelated proofs)
+				if ra := e.d.rangeAssumption(kt, fmt.Sprintf("(select (select %s r!t) i!t)", t), 0); ra != "" && needsTyping(kt) {
+					e.emit(fmt.Sprintf("(assert (forall ((r!t Int) (i!t Int)) (! %s :pattern ((select (select %s r!t) i!t)))))", ra, t))
+				}
+			}
+		}
+	}
 	h.memo[key] = t
 	return t
+}
+
+// needsTyping: integer-valued cells (and structs/slices of them) get a range axiom.
+func needsTyping(t types.Type) bool {
+	switch u := t.Underlying().(type) {
+	case *types.Basic:
+		return u.Info()&types.IsInteger != 0
+	case *types.Slice:
+		return true
+	}
+	return false
 }
 
 // innerSort of "(Array Int X)" is X.
